@@ -23,7 +23,7 @@ from fractions import Fraction
 import numpy as np
 import z3
 
-from . import dag, sym
+from . import dag, sym, poly
 from .dag import ZERO, ONE
 from .lower import Lower, solve, model_values
 from .sym import S, sarr, lift, explore, path_id, szeros
@@ -64,7 +64,7 @@ class Env(object):
             shape = (shape,)
         names = self._names(name, shape)
         if self.sym:
-            a = np.empty(shape, dtype=object)
+            a = np.empty(shape, dtype=object).view(sym.SArr)
             for idx, nm in names:
                 v = sym.sv(nm, positive=(dom == "pos"), nonneg=(dom == "nonneg"))
                 a[idx] = v
@@ -196,26 +196,42 @@ def _relaxed(ex, nodes):
 
 def decide(ex, got, want, timeout_ms, extra=()):
     """got, want: DAG nodes.  Poses  assume & path & atom definitions & axioms & got != want.
-    returns (verdict, seconds, z3 model or None, nconstraints, trivial, phase)"""
+    returns (verdict, seconds, z3 model or None, nconstraints, trivial, phase)
+
+    phase N: got - want is first rewritten into a canonical polynomial over independent atoms
+             (vf.poly); z3 decides `normalised difference != 0` under the path condition;
+    phase A: raw lowering with exact atom definitions (short budget);
+    phase B: raw lowering, ground irrational constants relaxed to rational enclosures (sound for unsat)."""
     low = ex.low
+    pre = list(ex.assume) + ex.path_constraints() + list(extra)
+    dt_total = 0.0
+    try:
+        D = poly.normalized_difference(got, want)
+    except (poly.TooBig, NotImplementedError, RecursionError):
+        D = None
+    if D is not None:
+        PL = poly.PolyLower()
+        goal = PL.poly(D) != 0
+        cons = pre + list(low.side) + PL.side + PL.congruence() + [goal]
+        if not D:
+            v, dt, m, s = solve(cons, timeout_ms)
+            return v, dt, None, len(cons), True, "normalised-identical"
+        v, dt, m, s = solve(cons, max(2000, timeout_ms // 2), want_model=True)
+        dt_total += dt
+        if v != "unknown":
+            return v, dt_total, m, len(cons), False, "normalised"
     zg, zw = low(got), low(want)
     goal = zg != zw
-    gs = z3.simplify(goal)
-    pre = list(ex.assume) + ex.path_constraints() + list(extra)
-    if z3.is_false(gs):
-        # the two terms are identical after z3's simplifier: still a solver verdict
-        return "unsat", 0.0, None, len(pre) + 1, True, "simplify"
-    # phase A: exact atom definitions, short budget
     cons = pre + list(low.side) + low.congruence() + [goal]
     tA = max(1000, min(5000, timeout_ms // 4))
     v, dt, m, s = solve(cons, tA, want_model=True)
+    dt_total += dt
     if v != "unknown":
-        return v, dt, m, len(cons), False, "exact"
-    # phase B: ground irrational constants relaxed to 1e-12-wide rational enclosures (sound for unsat)
+        return v, dt_total, m, len(cons), False, "exact"
     low2 = _relaxed(ex, [got, want])
     cons2 = pre + list(low2.side) + low2.congruence() + low2.exp_sum_axioms() + [goal]
-    v2, dt2, m2, s2 = solve(cons2, timeout_ms, want_model=True)
-    return v2, dt + dt2, m2, len(cons2), False, "relaxed"
+    v2, dt2, m2, s2 = solve(cons2, timeout_ms // 2, want_model=True)
+    return v2, dt_total + dt2, m2, len(cons2), False, "relaxed"
 
 
 def nice_model(ex, got, want, names, timeout_ms=2000):
